@@ -34,6 +34,23 @@ MUTATIONS = {
     "ELSE LET d == s.cols + s.skip IN (s.v.len \\div d) + ((s.v.len % d) \\div s.cols)",
     "ELSE s.v.len \\div s.cols"),
   ]},
+ "AlgosMC": {
+  "target": "Algos",
+  "cfg": "SPECIFICATION Spec\nCONSTANTS\n  TMax = 6\n  PMax = 5\n  CMax = 4\n  Which = {\"translate\", \"swaptrace\", \"copywithin\"}\nINVARIANTS TranslateRefines SwapTraceRefines CopyWithinRefines\nCHECK_DEADLOCK FALSE\n",
+  "muts": [
+   ("S15: translate keeps the running column offset across row cycles",
+    "InnerLoop([s EXCEPT !.mid = s.colmid, !.next = s.base + s.adj], NR(s.g) + 2)",
+    "InnerLoop([s EXCEPT !.next = s.base + s.adj], NR(s.g) + 2)"),
+   ("translate swaps the two halves without rotating",
+    "b2 == [x \\in 1..C |-> IF x <= mid THEN n[C - mid + x] ELSE n[x - mid]]",
+    "b2 == [x \\in 1..C |-> n[x]]"),
+   ("build_swap_trace drops the inverse-index fix-up",
+    "o15 == IF invi > i /\\ ~oob THEN [o1 EXCEPT ![invi + 1] = <<other, o1[invi + 1][2]>>] ELSE o1",
+    "o15 == o1"),
+   ("S03-like: copy_within walks the rows top-down when moving down",
+    "IN IF tl[2] < d[2] THEN CopyRows(g, desc, 1, d[2] - tl[2], tl[1], br[1], d[1])",
+    "IN IF tl[2] < d[2] THEN CopyRows(g, asc, 1, d[2] - tl[2], tl[1], br[1], d[1])"),
+  ]},
  "RawMem": {
   "cfg": "SPECIFICATION Spec\nCONSTANTS\n  MaxC = 3\n  MaxR = 3\n  Slacks = {0, 2}\n  DebugBuilds = {TRUE, FALSE}\nINVARIANTS M_InBounds M_NoDoubleDrop M_Shape M_Owned M_Provenance M_Refines M_RejectUnchanged M_DrainLine M_DrainRow M_ExactlyOnce\nCHECK_DEADLOCK FALSE\n",
   "muts": [
